@@ -1,6 +1,7 @@
 import Pyc.Proofs.Cbor
 import Pyc.Proofs.Value
 import Pyc.Model.Canonical
+import Pyc.Proofs.Sort
 
 /-! The canonical sort is a function of the key set; encodings of map-like values are functions of content. -/
 
@@ -137,13 +138,12 @@ theorem keyLe_antisymm (a b : Bytes) (ha : a.length < 2^64) (hb : b.length < 2^6
     (h1 : keyLe a b = true) (h2 : keyLe b a = true) : a = b :=
   sortKeyBytes_inj a b ha hb (lenLexLe_antisymm _ _ h1 h2)
 
-theorem canonSort_perm {ν : Type} (m : List (Bytes × ν)) : (canonSort m).Perm m := List.mergeSort_perm _ _
+theorem canonSort_perm {ν : Type} (m : List (Bytes × ν)) : (canonSort m).Perm m := isort_perm _ _
 
 theorem canonSort_sorted {ν : Type} (m : List (Bytes × ν)) :
     (canonSort m).Pairwise (fun a b => keyLe a.1 b.1 = true) := by
-  have := List.pairwise_mergeSort (le := fun (a b : Bytes × ν) => keyLe a.1 b.1)
+  exact isort_pairwise (fun (a b : Bytes × ν) => keyLe a.1 b.1)
     (fun a b c h1 h2 => keyLe_trans _ _ _ h1 h2) (fun a b => keyLe_total _ _) m
-  simpa [canonSort] using this
 
 /-- the emitted order is a function of the set of entries: any two insertion orders give the same list -/
 theorem canonSort_unique {ν : Type} (m₁ m₂ : List (Bytes × ν)) (hw : Dict.WF m₁) (hk : KeysOk m₁)
@@ -267,7 +267,8 @@ end MultiAsset
 theorem primMultiAsset_eq (m : MultiAsset) :
     primMultiAsset m = canonSort ((MultiAsset.normalize m).map MultiAsset.canonInner) := by
   unfold primMultiAsset canonSort
-  exact List.map_mergeSort (f := MultiAsset.canonInner) (fun a _ b _ => rfl)
+  exact map_isort (fun (a b : Bytes × Asset) => keyLe a.1 b.1)
+    (fun (a b : Bytes × List (Bytes × Int)) => keyLe a.1 b.1) MultiAsset.canonInner (fun a b => rfl) _
 
 /-- the canonical form of a bundle is a function of its content -/
 theorem primMultiAsset_content (m₁ m₂ : MultiAsset) (h1 : MultiAsset.WF m₁) (h2 : MultiAsset.WF m₂)
@@ -290,13 +291,12 @@ theorem primMultiAsset_content (m₁ m₂ : MultiAsset) (h1 : MultiAsset.WF m₁
 
 theorem canonSortRaw_unique (m₁ m₂ : List (Bytes × Bytes)) (hw : Dict.WF m₁) (hp : m₁.Perm m₂) :
     canonSortRaw m₁ = canonSortRaw m₂ := by
-  have p1 : (canonSortRaw m₁).Perm m₁ := List.mergeSort_perm _ _
-  have p2 : (canonSortRaw m₂).Perm m₂ := List.mergeSort_perm _ _
+  have p1 : (canonSortRaw m₁).Perm m₁ := isort_perm _ _
+  have p2 : (canonSortRaw m₂).Perm m₂ := isort_perm _ _
   have srt : ∀ m : List (Bytes × Bytes), (canonSortRaw m).Pairwise (fun a b => lenLexLe a.1 b.1 = true) := by
     intro m
-    have := List.pairwise_mergeSort (le := fun (a b : Bytes × Bytes) => lenLexLe a.1 b.1)
+    exact isort_pairwise (fun (a b : Bytes × Bytes) => lenLexLe a.1 b.1)
       (fun a b c h1 h2 => lenLexLe_trans _ _ _ h1 h2) (fun a b => lenLexLe_total _ _) m
-    simpa [canonSortRaw] using this
   apply List.Perm.eq_of_pairwise (le := fun a b => lenLexLe a.1 b.1 = true) _ (srt m₁) (srt m₂)
     (p1.trans (hp.trans p2.symm))
   intro a b ha hb h1 h2
